@@ -4,6 +4,7 @@ sys.path.insert(0, os.path.dirname(os.path.abspath(__file__)))
 import shv
 from shv import log, VERIF, Undecided
 import props as P
+import replay as R
 
 
 def load_known():
@@ -151,6 +152,7 @@ def main():
     cmds = []
     files_scanned = set()
     replays_extra = {}
+    replay_texts = {}
     try:
         with shv.Scratch(keep=a.keep) as sc:
             for uname in cfg['units']:
@@ -193,8 +195,10 @@ def main():
                                 discharged.setdefault(k, v)
                         for k, v in f.items():
                             if k.startswith(pid + '.'):
-                                failed[k] = v
-                                replays_extra[k] = 'kani harness %s (%s)\n%s' % (h, hres['id'], r['stdout_tail'][-2500:])
+                                failed[k] = dict(v, unit=uname)
+                                tail = r['stdout_tail']
+                                i = tail.find('Checking harness')
+                                replays_extra[k] = 'verifier output (kani harness %s):\n%s' % (hres['id'], tail[i:] if i >= 0 else tail[-2500:])
                         undec += u
                         unit_reports.append({'unit': uname, 'harness': h, 'status': hres['status'], 'checks': n,
                                              'covers': ['%s [%s]' % c for c in cov][:12], 'time_s': hres['duration_s'],
@@ -216,6 +220,20 @@ def main():
                     unit_reports += r.get('reports', [])
                     for f in r.get('scan', []):
                         files_scanned.add(f)
+            # counterexample replay against the real code, while the scratch copy still exists
+            for obl, info in sorted(failed.items()):
+                hook = P.REPLAYERS.get(obl)
+                if not hook or any(k.get('obligation') == obl for k in known):
+                    continue
+                try:
+                    unit = P.UNITS[info['unit']] if info.get('unit') else None
+                    vals = None
+                    if unit and unit['engine'] == 'kani':
+                        pb = R.kani_playback(sc, unit, info['harness'])
+                        vals = pb.get(info['desc'])
+                    replay_texts[obl] = hook({'scratch': sc}, obl, info, vals)
+                except Exception as e:  # replay is best effort; its failure never changes the verdict
+                    replays_extra[obl] = replays_extra.get(obl, '') + '\nreplay attempt failed: %r\n' % (e,)
     except Undecided as e:
         undec.append(str(e))
 
@@ -241,14 +259,8 @@ def main():
             print('KNOWN-FINDING: property=%s %s' % (pid, kf[0]['text']))
             continue
         n_viol += 1
-        replay_done = None
-        hook = P.REPLAYERS.get(obl)
+        replay_done = replay_texts.get(obl)
         extra = replays_extra.get(obl, '')
-        if hook:
-            try:
-                replay_done = hook(obl, info)
-            except Exception as e:  # replay is best effort
-                extra += '\nreplay attempt failed: %r\n' % (e,)
         if replay_done:
             extra = replay_done + '\n\n' + extra
         path = write_replay(pid, obl, info, extra)
